@@ -99,6 +99,14 @@ def sections(ans):
         d[t[0]] = t[1] if len(t) > 1 else ''
     # derived: the stored keys of the successors only
     d['MH'] = ' '.join(x.rsplit(',', 1)[-1] for x in d.get('M', '').split())
+    # derived, order-free views (the properties speak about sets of moves and about successors per move, not about generation order):
+    # every per-move answer paired with its move, sorted
+    a, q = d.get('A', '').split(), d.get('Q', '').split()
+    def paired(moves, vals, name):
+        if len(moves) == len(vals): d[name] = ' '.join(sorted(m + '>' + v for m, v in zip(moves, vals)))
+        else: d[name] = 'UNPAIRED ' + ' '.join(moves) + ' / ' + ' '.join(vals)
+    paired(a, list(d.get('L', '').strip()), 'AL'); paired(q, list(d.get('LQ', '').strip()), 'QL')
+    paired(a, d.get('M', '').split(), 'AM'); paired(a, d.get('MK', '').split(), 'AMK'); paired(a, d['MH'].split(), 'AMH')
     return d
 
 def histograms(res):
